@@ -22,6 +22,11 @@ func runExtras(e *Engine, prop, tier string) []*extraResult {
 		out = append(out, runBoundedGoTest(prop, tier, "bounded:SetLinks", "boltz", "c05_setlinks_test.go", "^TestVerifBoundedSetLinks$",
 			"linkCollectionImpl.SetLinks (sorted merge): exhaustive on the real code with a real bbolt file over 4 link targets (byte-order and prefix relations), every current set x every requested list of length <= 4 over the targets plus one missing id, any order, duplicates allowed (quick: 16 x 781; thorough: 5 targets, length <= 5: 32 x 9331); checks the resulting set on both sides, IsLinked, a bystander entity, and that a missing target fails"))
 	}
+	switch prop {
+	case "C03", "C04", "C05", "C06", "C15":
+		out = append(out, runBoundedGoTest(prop, tier, "bounded:histories", "boltz", "c03_histories_test.go", "^TestVerifBoundedHistories$",
+			"the history half of C03-C06/C15 (not mechanised as a proof): seeded random operation histories on the real code with a real bbolt file over stores combining a unique, a nullable unique and a set index, a nullable fk index (restrict), a plain and a reference-counted link collection and a child store with its own unique index; operations: create / full update / field-restricted update / delete through parent and child store, add / remove / set links, increment / decrement / set counts; after every operation acceptance and every index, back-reference, link, count and store answer are compared with a reference model, after every delete and at the end of every history the whole database is compared key by key with one built freshly from the model's state and ValidateDeleted is asked about every id that is not alive (quick: 120 histories x 30 operations; thorough: 1500 x 45)"))
+	}
 	return out
 }
 
@@ -51,6 +56,9 @@ func runBoundedGoTest(prop, tier, name, pkg, file, run, note string) *extraResul
 	}
 	for _, m := range reBoundedFail.FindAllStringSubmatch(out, -1) {
 		x.Failures = append(x.Failures, m[1])
+	}
+	if m := regexp.MustCompile(`(?m)^HB-STATS (.*)$`).FindStringSubmatch(out); m != nil {
+		x.Note += " [" + m[1] + "]"
 	}
 	x.Note += fmt.Sprintf(" [%d cases, %.1fs]", x.Cases, time.Since(t0).Seconds())
 	if len(x.Failures) == 0 && (err != nil || x.Cases == 0) {
